@@ -12,6 +12,7 @@ package main
 
 import (
 	"bytes"
+	"crypto/sha256"
 	"encoding/json"
 	"fmt"
 	"go/ast"
@@ -198,20 +199,27 @@ func Load(dir string, overlay map[string][]byte) (*Prog, error) {
 	sort.Strings(needList)
 	exportFile := cache.exportFile
 	if exportFile == nil && len(needList) > 0 {
-		exportFile = map[string]string{}
-		cache.exportFile = exportFile
-		// -deps so that indirectly referenced packages have export files too
-		ex, err := goList(dir, append([]string{"-export", "-deps"}, needList...)...)
-		if err != nil {
-			return nil, err
-		}
-		for _, p := range ex {
-			if p.Export != "" {
-				exportFile[p.ImportPath] = p.Export
+		// The location of the dependencies' export data depends only on go.mod/go.sum (and the
+		// toolchain): remember it between runs, keyed by their hash, and re-validate that every file
+		// still exists. The module's own packages are never cached: they are re-read above/below.
+		key := depsKey(dir, needList)
+		exportFile = readExportCache(key)
+		if exportFile == nil {
+			exportFile = map[string]string{}
+			// -deps so that indirectly referenced packages have export files too
+			ex, err := goList(dir, append([]string{"-export", "-deps"}, needList...)...)
+			if err != nil {
+				return nil, err
 			}
+			for _, p := range ex {
+				if p.Export != "" {
+					exportFile[p.ImportPath] = p.Export
+				}
+			}
+			writeExportCache(key, exportFile)
 		}
+		cache.exportFile = exportFile
 	}
-
 	tick(&t0, "go list -export")
 	// 3. parse + type-check module packages in dependency order
 	fset := cache.fset
@@ -395,4 +403,47 @@ func allFunctions(prog *ssa.Program, P *Prog) map[*ssa.Function]bool {
 		}
 	}
 	return out
+}
+
+func depsKey(dir string, need []string) string {
+	h := sha256.New()
+	for _, f := range []string{"go.mod", "go.sum"} {
+		b, _ := os.ReadFile(filepath.Join(dir, f))
+		h.Write(b)
+		h.Write([]byte{0})
+	}
+	out, _ := exec.Command("go", "env", "GOVERSION", "GOOS", "GOARCH", "GOCACHE").Output()
+	h.Write(out)
+	h.Write([]byte(strings.Join(need, ",")))
+	return fmt.Sprintf("%x", h.Sum(nil))[:24]
+}
+
+func exportCachePath(key string) string {
+	return filepath.Join(verifDir(), ".cache", "export-"+key+".json")
+}
+
+func readExportCache(key string) map[string]string {
+	b, err := os.ReadFile(exportCachePath(key))
+	if err != nil {
+		return nil
+	}
+	var m map[string]string
+	if json.Unmarshal(b, &m) != nil || len(m) == 0 {
+		return nil
+	}
+	for _, f := range m {
+		if _, err := os.Stat(f); err != nil {
+			return nil // build cache was trimmed: ask the go command again
+		}
+	}
+	return m
+}
+
+func writeExportCache(key string, m map[string]string) {
+	os.MkdirAll(filepath.Dir(exportCachePath(key)), 0o755)
+	b, _ := json.Marshal(m)
+	tmp := exportCachePath(key) + fmt.Sprintf(".%d.tmp", os.Getpid())
+	if os.WriteFile(tmp, b, 0o644) == nil {
+		os.Rename(tmp, exportCachePath(key))
+	}
 }
